@@ -642,6 +642,63 @@ theorem parseAux_toPlain (s : SStr) (hph : noPh s = true) (hbs : bsOk s = true) 
 theorem parse_noPh (e b : Bool) (x : Str) : noPh (parseAux e b x) = true := by
   fun_induction parseAux e b x <;> simp_all [noPh]
 
+/-! ### the plain form written and parsed again by `replace_string` -/
+
+/-- no literal backslash stands immediately in front of a wildcard -/
+def bsWildOk : SStr → Bool
+  | [] => true
+  | .lit c :: r => (c != '\\' || !(r.head? == some .star || r.head? == some .qm)) && bsWildOk r
+  | _ :: r => bsWildOk r
+
+theorem toPlain_head_wild (r : SStr) (hph : noPh r = true) :
+    ((toPlain r).head? == some '*' || (toPlain r).head? == some '?') = (r.head? == some .star || r.head? == some .qm) := by
+  cases r with
+  | nil => rfl
+  | cons p r =>
+    cases p with
+    | ph n => simp [noPh] at hph
+    | star => simp [toPlain]
+    | qm => simp [toPlain]
+    | lit c =>
+      by_cases h2 : c = '*'
+      · subst h2; simp [toPlain]
+      · by_cases h3 : c = '?'
+        · subst h3; simp [toPlain]
+        · have e1 : (Part.lit c == Part.star) = false := beq_eq_false_iff_ne.mpr (by simp)
+          have e2 : (Part.lit c == Part.qm) = false := beq_eq_false_iff_ne.mpr (by simp)
+          simp [toPlain, h2, h3, e1, e2]
+
+theorem parseAux_reescape_toPlain (s : SStr) (hph : noPh s = true) (hbs : bsWildOk s = true) :
+    parseAux true false (reescape (toPlain s)) = s := by
+  induction s with
+  | nil => simp [toPlain, reescape, parseAux]
+  | cons p r ih =>
+    cases p with
+    | ph n => simp [noPh] at hph
+    | star =>
+      have := ih (by simpa [noPh] using hph) (by simpa [bsWildOk] using hbs)
+      simp [toPlain, reescape, parseAux, this]
+    | qm =>
+      have := ih (by simpa [noPh] using hph) (by simpa [bsWildOk] using hbs)
+      simp [toPlain, reescape, parseAux, this]
+    | lit c =>
+      have hph' : noPh r = true := by simpa [noPh] using hph
+      simp only [bsWildOk, Bool.and_eq_true] at hbs
+      have IH := ih hph' hbs.2
+      by_cases h1 : c = '\\'
+      · subst h1
+        have hw : ((toPlain r).head? == some '*' || (toPlain r).head? == some '?') = false := by
+          rw [toPlain_head_wild r hph']; simpa using hbs.1
+        have : toPlain (.lit '\\' :: r) = '\\' :: toPlain r := by simp [toPlain]
+        rw [this, reescape]
+        simp only [hw]
+        simp [parseAux, IH]
+      · by_cases h2 : c = '*'
+        · subst h2; simp [toPlain, reescape, parseAux, IH]
+        · by_cases h3 : c = '?'
+          · subst h3; simp [toPlain, reescape, parseAux, IH]
+          · simp [toPlain, reescape, parseAux, IH, h1, h2, h3]
+
 /-! ## Deliverable 6: field names -/
 
 /-- decidable well-formedness of a field-name escaping configuration: if there is a (non-empty)
